@@ -40,3 +40,12 @@ Example C17_extension_rule :
   is_slice_file [97; 47; 98; 46; 115; 108; 105; 99; 101]%N = true /\ is_slice_file [46; 115; 108; 105; 99; 101]%N = false /\
   is_slice_file [97; 46; 115; 108; 105; 99; 101; 46; 98; 97; 107]%N = false.
 Proof. vm_compute. repeat split. Qed.
+
+(* the walk below a reference directory ends whatever the links: a directory is not searched again from within itself, and with
+   more fuel than the file system has identities the result does not depend on the fuel *)
+Theorem C17_walk_fuel_independent : forall fs f1 f2 anc p, NoDup anc -> incl anc (known_ids fs) ->
+  length (known_ids fs) - length anc < f1 -> length (known_ids fs) - length anc < f2 -> walk f1 anc fs p = walk f2 anc fs p.
+Proof. exact walk_fuel_independent. Qed.
+Theorem C17_link_back_to_an_ancestor_adds_nothing : forall fs fuel anc p id, kind_of fs p = KDir -> canon_of fs p = Some id -> In id anc ->
+  walk (S fuel) anc fs p = ([], []).
+Proof. exact walk_skips_ancestor. Qed.
